@@ -19,6 +19,7 @@ CONSTANTS
   MaxLag = 4
   MaxProbes = 3
   MaxReorg = 2
+  MaxCrash = 3
   ExportOn = TRUE
   SampleMod = 1
 INIT Init
